@@ -47,7 +47,10 @@ def cells(tier, lens=None, angs=None, extra_angs=()):
 
 
 SPECIAL_CELLS = [[1.0, 1.0, 1.0, 90.0, 90.0, 120.0], [1.0, 1.0, 1.0, 90.0, 90.0, 90.0], [480.0, 480.0, 480.0, 90.0, 90.0, 90.0], [350.0, 600.0, 520.0, 90.0, 105.0, 90.0],
-                 [0.05, 0.07, 0.02, 80.0, 95.0, 100.0], [3.0, 3.5, 400.0, 90.0, 90.0, 90.0], [5.0, 6.0, 7.0, 80.0, 95.0, 100.0]]
+                 [0.05, 0.07, 0.02, 80.0, 95.0, 100.0], [3.0, 3.5, 400.0, 90.0, 90.0, 90.0], [5.0, 6.0, 7.0, 80.0, 95.0, 100.0],
+                 # no round numbers at all (a grid of round values is blind to an input rounded to a few decimals), and a cell beyond 1000 A
+                 [3.1415926535, 4.6692016091, 5.4365636569, 81.2345678912, 94.8765432198, 102.3456789123],
+                 [1012.7, 1187.4, 1365.9, 90.0, 90.0, 90.0]]
 
 
 def dirty_call(fn, args_before, args_now, pos=0):
@@ -92,12 +95,12 @@ def conforming_cells(crystal_system, cell_choice, tier="quick"):
         l = [[a, b, c, 82., 97., 104.], [a, b, c, 90., 90., 90.], [a, b, c, 60., 75., 110.]]
         if tier == "thorough":
             l += [[4.0, 9.0, 5.5, 100., 115., 95.], [a, b, c, 120., 60., 75.]]
-        return l
+        return l + [[a, b, c, 90.0004, 89.9996, 90.0004]]  # almost orthogonal: a shortcut "angles are 90" must not take it
     if crystal_system == "monoclinic":
         l = [[a, b, c, 90., 104., 90.], [a, b, c, 90., 90., 90.], [a, b, c, 90., 120., 90.]]
         if tier == "thorough":
             l += [[a, b, c, 90., 135., 90.], [c, a, b, 90., 75., 90.]]
-        return l
+        return l + [[a, b, c, 90., 90.0004, 90.]]
     if crystal_system == "orthorhombic":
         l = [[a, b, c, 90., 90., 90.]]
         if tier == "thorough":
